@@ -86,6 +86,21 @@ def _alias_expr(func, cfg, nid, v, depth):
         if isinstance(v.func, ast.Attribute) and v.func.attr in ('reshape', 'view', 'ravel',
                                                                  'squeeze', 'transpose'):
             return _alias_expr(func, cfg, nid, v.func.value, depth)
+        # a helper defined inside the function: fresh only if every value it returns is built
+        # by a copying call; otherwise its result may be (a view of) one of its arguments
+        if isinstance(v.func, ast.Name):
+            for d_ in ast.walk(func.node):
+                if isinstance(d_, ast.FunctionDef) and d_ is not func.node and \
+                        d_.name == v.func.id:
+                    rets = [r.value for r in ast.walk(d_) if isinstance(r, ast.Return) and
+                            r.value is not None]
+                    if all(isinstance(r, ast.Call) and dotted(r.func) in FRESH_CALLS
+                           for r in rets):
+                        return None
+                    for a in list(v.args) + [k.value for k in v.keywords]:
+                        w = _alias_expr(func, cfg, nid, a, depth + 1)
+                        if w:
+                            return w + ' (through the local helper %s)' % d_.name
     return None
 
 
@@ -1950,4 +1965,31 @@ def rule_G7(ctx, options, rid='G7'):
                             % (unparse(c)[:50], p, callee.qualname) if arg is None else
                             '`%s` is bound to `%s`, not to the caller\'s own `%s`'
                             % (p, unparse(arg)[:40], p)))
+    return n
+
+
+def rule_F11(ctx, rid='F11'):
+    """What posterior() hands to the caller is the caller's to modify: none of the returned
+    arrays is (a view of) an array the sampler keeps.  `log_l -= log_l.max()` on the caller's
+    side must not rewrite the stored likelihoods (C03_m: a helper returning `arrays[0]` - a view
+    of the only shell - instead of a concatenation)."""
+    ctx.rule(rid, 'returns-fresh: no array returned by posterior() may alias sampler state')
+    f = ctx.program.func('Sampler.posterior')
+    cfg = cfg_of(f)
+    n = 0
+    for r in walk_no_nested(f.node):
+        if not isinstance(r, ast.Return) or r.value is None or not cfg.has(r):
+            continue
+        nid = cfg.node_of(r).id
+        elts = r.value.elts if isinstance(r.value, ast.Tuple) else [r.value]
+        for e in elts:
+            if not isinstance(e, ast.Name):
+                continue
+            why = aliases_state(f, cfg, nid, e.id)
+            n += 1
+            ctx.ob(rid, 'Sampler.posterior:returns-fresh(%s)' % e.id, why is None, f.where(r),
+                   '`%s` is a fresh array on every path' % e.id if why is None else
+                   'the returned `%s` may be %s: a caller that modifies the result in place '
+                   'rewrites what the sampler stores' % (e.id, why))
+    ctx.require(n >= 3, 'F11 saw only %d returned arrays in posterior() (floor 3)' % n)
     return n
